@@ -26,6 +26,8 @@
     `C16_export_import_export`                     — the requested corollary;
   * `C16_refs_resolve`                             — after a successful load every reference is
                                                      an object of the restored project;
+    `C16_loadable_iff`                             — a file that loads is the export of the
+                                                     loaded project, whose references are in range;
   * `C16_resimulate`                               — the restored project re-simulates to the
                                                      same result, for every parameter set;
   * `C16_unique_needed`, `C16_unique_needed_neg`   — with two tasks sharing an ID the round
@@ -62,15 +64,30 @@ theorem C16_export_total (ids : Ids) (m : Model) (s : St) :
       (sm.nT = m.nT ∧ sm.nW = m.nW ∧ sm.nF = m.nF ∧ sm.nTeam = m.nTeam ∧ sm.nWp = m.nWp ∧
         sm.nC = m.nC) ∧
       sm.worker = m.worker ∧ sm.fac = m.fac ∧
-      (∀ t, sm.task t = { m.task t with inputs := (sm.task t).inputs,
-          outputs := (sm.task t).outputs, wps := (sm.task t).wps, comp := (sm.task t).comp }) ∧
+      (∀ t, sm.task t =
+        { m.task t with
+          inputs := (sm.task t).inputs
+          outputs := (sm.task t).outputs
+          wps := (sm.task t).wps
+          comp := (sm.task t).comp }) ∧
       (∀ a, sm.team a = { m.team a with targets := (sm.team a).targets }) ∧
-      (∀ q, sm.wp q = { m.wp q with targets := (sm.wp q).targets, inputs := (sm.wp q).inputs,
+      (∀ q, sm.wp q =
+        { m.wp q with
+          targets := (sm.wp q).targets
+          inputs := (sm.wp q).inputs
           outputs := (sm.wp q).outputs }) ∧
-      (∀ c, sm.comp c = { m.comp c with tasks := (sm.comp c).tasks,
-          parents := (sm.comp c).parents, children := (sm.comp c).children }) ∧
-      ss.live = { s.live with allocW := ss.live.allocW, allocF := ss.live.allocF,
-          wasg := ss.live.wasg, fasg := ss.live.fasg, placed := ss.live.placed,
+      (∀ c, sm.comp c =
+        { m.comp c with
+          tasks := (sm.comp c).tasks
+          parents := (sm.comp c).parents
+          children := (sm.comp c).children }) ∧
+      ss.live =
+        { s.live with
+          allocW := ss.live.allocW
+          allocF := ss.live.allocF
+          wasg := ss.live.wasg
+          fasg := ss.live.fasg
+          placed := ss.live.placed
           wpComps := ss.live.wpComps } ∧
       ss = { s with live := ss.live } := by
   refine ⟨_, _, exportP_eq ids m s, ⟨rfl, rfl, rfl, rfl, rfl, rfl⟩, rfl, rfl, ?_, ?_, ?_, ?_,
@@ -126,9 +143,16 @@ theorem C16_import_export_ranges {ids : Ids} {m : Model} {s : St} {sm : Model} {
     (∀ f, f < m.nF → s'.live.fasg f = s.live.fasg f) ∧
     (∀ c, c < m.nC → s'.live.placed c = s.live.placed c) ∧
     (∀ q, q < m.nWp → s'.live.wpComps q = s.live.wpComps q) ∧
-    s' = { s with live := { s.live with allocW := s'.live.allocW, allocF := s'.live.allocF,
-        wasg := s'.live.wasg, fasg := s'.live.fasg, placed := s'.live.placed,
-        wpComps := s'.live.wpComps } } := by
+    s' =
+      { s with
+        live :=
+          { s.live with
+            allocW := s'.live.allocW
+            allocF := s'.live.allocF
+            wasg := s'.live.wasg
+            fasg := s'.live.fasg
+            placed := s'.live.placed
+            wpComps := s'.live.wpComps } } := by
   rw [C16_import_export hu ok hx] at hi
   simp only [Option.some.injEq, Prod.mk.injEq] at hi
   obtain ⟨rfl, rfl⟩ := hi
@@ -298,27 +322,44 @@ example : ∃ sm ss, exportP C16Ex.ids C16Ex.m C16Ex.s = some (sm, ss) ∧
     importP C16Ex.ids sm ss = some (C16Ex.m, C16Ex.s) :=
   ⟨_, _, exportP_eq _ _ _, C16_import_export C16Ex.uniq C16Ex.refsOK (exportP_eq _ _ _)⟩
 
+namespace C16Ex
+/-- observations: static references -/
+def obsM (p : Model × St) :=
+  ((p.1.task 1).inputs, (p.1.task 1).wps, (p.1.task 1).comp, (p.1.team 0).targets)
+def obsM2 (p : Model × St) :=
+  ((p.1.wp 0).targets, (p.1.wp 0).outputs, (p.1.comp 0).tasks, (p.1.comp 0).children)
+/-- observations: live references -/
+def obsL (p : Model × St) :=
+  (p.2.live.allocW 0, p.2.live.allocF 0, p.2.live.wasg 0, p.2.live.fasg 0)
+def obsL2 (p : Model × St) :=
+  (p.2.live.placed 0, p.2.live.wpComps 0, (p.1.task 1).work, p.2.time)
+end C16Ex
+
 /-- the file really contains IDs, not indices (the relabelling is not the identity) -/
 example :
-    (exportP C16Ex.ids C16Ex.m C16Ex.s).map (fun p =>
-      ((p.1.task 1).inputs, (p.1.task 1).wps, (p.1.task 1).comp, (p.1.team 0).targets,
-       (p.1.wp 0).outputs, (p.1.comp 0).children, p.2.live.allocW 0, p.2.live.allocF 0,
-       p.2.live.wasg 0, p.2.live.placed 0, p.2.live.wpComps 0, (p.1.task 1).work, p.2.time)) =
-    some ([(100, .fs)], [500, 501], some 601, [100, 101], [501], [601], [200], [300], [100],
-      some 500, [600], 1, 1) := by
-  decide +kernel
+    (exportP C16Ex.ids C16Ex.m C16Ex.s).map C16Ex.obsM =
+      some ([(100, .fs)], [500, 501], some 601, [100, 101]) ∧
+    (exportP C16Ex.ids C16Ex.m C16Ex.s).map C16Ex.obsM2 =
+      some ([100, 101], [501], [100], [601]) ∧
+    (exportP C16Ex.ids C16Ex.m C16Ex.s).map C16Ex.obsL = some ([200], [300], [100], [100]) ∧
+    (exportP C16Ex.ids C16Ex.m C16Ex.s).map C16Ex.obsL2 = some (some 500, [600], 1, 1) :=
+  ⟨by decide +kernel, by decide +kernel, by decide +kernel, by decide +kernel⟩
 
 /-- the round trip computed: every kind of reference comes back as the original index -/
 example :
-    ((exportP C16Ex.ids C16Ex.m C16Ex.s).bind fun p => importP C16Ex.ids p.1 p.2).map (fun p =>
-      ((p.1.task 1).inputs, (p.1.task 1).wps, (p.1.task 1).comp, (p.1.team 0).targets,
-       (p.1.wp 0).outputs, (p.1.comp 0).children, p.2.live.allocW 0, p.2.live.allocF 0,
-       p.2.live.wasg 0, p.2.live.placed 0, p.2.live.wpComps 0, (p.1.task 1).work, p.2.time)) =
-    some ([(0, .fs)], [0, 1], some 1, [0, 1], [1], [1], [0], [0], [0], some 0, [0], 1, 1) := by
-  decide +kernel
+    ((exportP C16Ex.ids C16Ex.m C16Ex.s).bind fun p => importP C16Ex.ids p.1 p.2).map C16Ex.obsM =
+      some ([(0, .fs)], [0, 1], some 1, [0, 1]) ∧
+    ((exportP C16Ex.ids C16Ex.m C16Ex.s).bind fun p => importP C16Ex.ids p.1 p.2).map C16Ex.obsM2 =
+      some ([0, 1], [1], [0], [1]) ∧
+    ((exportP C16Ex.ids C16Ex.m C16Ex.s).bind fun p => importP C16Ex.ids p.1 p.2).map C16Ex.obsL =
+      some ([0], [0], [0], [0]) ∧
+    ((exportP C16Ex.ids C16Ex.m C16Ex.s).bind fun p => importP C16Ex.ids p.1 p.2).map C16Ex.obsL2 =
+      some (some 0, [0], 1, 1) :=
+  ⟨by decide +kernel, by decide +kernel, by decide +kernel, by decide +kernel⟩
 
-/-- a file with an ID that no workplace carries does not load (`importP` is not trivially
-total): the raw in-memory model read as a file has workplace "ID" 0, and no workplace has it -/
+/-- a file containing an ID that no object of its kind carries does not load (`importP` is not
+trivially total): the raw in-memory model read as a file has the "IDs" 0 and 1 in its reference
+lists, and every real ID is ≥ 100 -/
 example : (importP C16Ex.ids C16Ex.m C16Ex.s).isNone = true := by decide +kernel
 
 /-- the hypothesis of `C16_reexport` / `C16_refs_resolve` is satisfiable -/
